@@ -122,12 +122,16 @@ class Design:
     def conn(self, a, b, at):
         self.stmts.append({"k": "c", "a": a, "b": b, "at": at})
 
-    def blk(self, kind, at, wr, rd=(), calls=()):
+    def blk(self, kind, at, wr, rd=(), calls=(), shape=None):
         """@update ('u') / `//=` lambda ('l') / @update_ff ('f') block or @s.func helper ('h') of
         component `at`; calls: 0-based indices into self.stmts of the helpers it calls (helpers of
         the same component).  Returns the index of the new statement."""
         self.stmts.append({"k": kind, "at": at, "wr": [{"o": o, "op": op} for (o, op) in wr], "rd": list(rd),
                            "calls": list(calls)})
+        if shape:
+            # how the assignments are laid out in the source of the block (control structure around them;
+            # irrelevant for the classification of the design, see _shape_body)
+            self.stmts[-1]["shape"] = shape
         return len(self.stmts) - 1
 
     def fun(self, at, wr=(), rd=(), calls=()):
@@ -367,11 +371,36 @@ def gen_variant(D, perm, flips, junkseed, cname):
                 calls = ["  fn%d()" % h if (junkseed + si + k) % 3 else "  _c%d = fn%d()" % (k, h)
                          for k, h in enumerate(st.get("calls", []))]
                 body = calls + body if (junkseed + si) % 2 else body + calls
-                B += body or ["  pass"]
+                shape = st.get("shape")
+                if shape is None and body and (junkseed + si) % 4 == 3:
+                    # one block in four: the same statements inside a (semantically neutral) control structure
+                    shape = ("if", "for", "tail-if", "nested")[((junkseed + si) // 4) % 4]
+                B += _shape_body(body, shape) or ["  pass"]
         if not B:
             B = ["pass"]
         out += L + ["    " + x for x in B] + [""]
     return "\n".join(out), "%s_1" % cname
+
+
+def _shape_body(body, shape):
+    """Lay the statements of a block out inside control structures.  What a block reads and writes and which
+    assignment operators it uses does not depend on where in the body a statement stands, so the
+    classification of the design is the same for every shape (the conditions are constant-true / the loops
+    run once, so the simulated values are the same too, except for 'else', used by C09-only designs)."""
+    if not shape or len(body) < 1:
+        return body
+    ind = lambda ls: ["  " + x for x in ls]
+    if shape == "if":                    # everything in one if-body
+        return ["  if 1 == 1:"] + ind(body)
+    if shape == "for":                   # everything in one loop body
+        return ["  for _k in range(1):"] + ind(body)
+    if shape == "else":                  # first statement in the if-body, the rest in the else-branch
+        return ["  if 1 == 1:"] + ind(body[:1]) + ["  else:"] + ind(body[1:] or ["  pass"])
+    if shape == "tail-if":               # first statement flat, the rest in an if-body
+        return body[:1] + (["  if 1 == 1:"] + ind(body[1:]) if body[1:] else [])
+    if shape == "nested":                # first statement in a loop, the rest in an if inside that loop
+        return ["  for _k in range(1):"] + ind(body[:1]) + (["    if 1 == 1:"] + ind(ind(body[1:])) if body[1:] else [])
+    raise ValueError(shape)
 
 
 def _rhs(D, st, si, wi, c, gmap):
@@ -1653,6 +1682,23 @@ def c09_extras():
     U = D.sig(1, "u", "wire", "b4")
     D.blk("u", 1, [(D.obj(T), "@="), (D.obj(U), "<<=")])
     out.append(D)
+    # ... in every order, inside every control structure (the wrong operator in the same branch as a right
+    # one, in a later else-branch, in a loop body, after a flat statement): added after seeded change C09-D
+    # (the operator of the last augmented assignment stayed attached to later plain `=` assignments of the
+    # same compound statement)
+    for kind, good in (("u", "@="), ("f", "<<=")):
+        for bad in ("=", "<<=" if kind == "u" else "@="):
+            for shape in (None, "if", "for", "else", "tail-if", "nested"):
+                for order in ("good-first", "bad-first", "good-bad-good"):
+                    D = Design(HIER2, "op/mixed/%s/%s/%s/%s" % (kind, bad, shape or "flat", order))
+                    T = D.sig(1, "t", "wire", "b4")
+                    U = D.sig(1, "u", "wire", "b4")
+                    V = D.sig(1, "v", "wire", "b4")
+                    wr = {"good-first": [(D.obj(T), good), (D.obj(U), bad)],
+                          "bad-first": [(D.obj(U), bad), (D.obj(T), good)],
+                          "good-bad-good": [(D.obj(T), good), (D.obj(U), bad), (D.obj(V), good)]}[order]
+                    D.blk(kind, 1, wr, shape=shape)
+                    out.append(D)
     # ---- reads (Type 1) and writes from the wrong place (Type 2-4) by a block in `at`
     for at, host, kind, acc in ((1, 1, "wire", "r"), (1, 2, "wire", "r"), (1, 2, "out", "r"), (1, 2, "in", "r"),
                                 (1, 4, "wire", "r"), (2, 2, "wire", "r"), (2, 4, "wire", "r"), (2, 4, "out", "r"),
